@@ -300,6 +300,11 @@ fn case_json(carrier: &str, s: &str) -> Value {
 }
 
 pub fn replay(case: &Value) -> Result<Verdict, String> {
+    if case["kind"] == "repeat" {
+        // the long string alone, on one thread (the concurrent part of the failure is not replayed)
+        let s = case["unit"].as_str().unwrap_or("").repeat(case["count"].as_u64().unwrap_or(1) as usize);
+        return Ok(judge(case["carrier"].as_str().ok_or("carrier")?, &s));
+    }
     Ok(judge(case["carrier"].as_str().ok_or("no carrier")?, case["string"].as_str().ok_or("no string")?))
 }
 
@@ -369,6 +374,50 @@ pub fn run(ctx: &Ctx) -> Report {
     total.exhaustive_parts.push("all 512 three-digit octal escapes in a format, plain and framed mode: program well-formed with unchanged structure".into());
 
     crate::selftest::snapshots_read_and_run(&mut total);
+    // 16 threads compiling and rendering long hostile strings at the same moment: a string of one
+    // thread must come out exactly as when that thread is alone (buffers or locks shared between threads)
+    let mut stc = Stats::new();
+    {
+        let nthreads = 16usize;
+        let rounds = ctx.tier.pick(12usize, 120usize);
+        let barrier = std::sync::Arc::new(std::sync::Barrier::new(nthreads));
+        let mut handles = vec![];
+        for k in 0..nthreads {
+            let barrier = barrier.clone();
+            let h = std::thread::Builder::new().stack_size(64 << 20).spawn(move || {
+                let carrier = ["pool", "name", "xattr-match-value", "device", "fprint", "printf-literal", "path+framed", "xattr"][k % 8];
+                // a quote, a backslash or both every few characters; 300..600 kB
+                let unit = ["ab\"", "x\\y", "q\"\\", "né\"", "\\\"z;("][k % 5];
+                let s = unit.repeat(60_000 + 7_000 * k);
+                barrier.wait();
+                let mut bad = None;
+                for r in 0..rounds {
+                    if let Verdict::Fail(m) = judge(carrier, &s) {
+                        bad = Some(format!("thread {k} of {nthreads}, round {r}, carrier {carrier}, a {}-byte string made of {unit:?} (all threads compile long strings at once): {}", s.len(), truncate(&m, 600)));
+                        break;
+                    }
+                }
+                (carrier, unit, s.len() / unit.len(), bad)
+            });
+            match h {
+                Ok(h) => handles.push(h),
+                Err(e) => stc.oracle_bugs.push(format!("cannot start a thread: {e}")),
+            }
+        }
+        for (k, h) in handles.into_iter().enumerate() {
+            match h.join() {
+                Ok((carrier, unit, reps, bad)) => {
+                    let v = match bad {
+                        Some(m) => Verdict::Fail(m),
+                        None => Verdict::Pass { nt: true, class: "long hostile strings compiled by 16 threads at once" },
+                    };
+                    stc.record(&v, stable_hash(&(k, "concurrent-long")), true, || json!({"kind": "repeat", "carrier": carrier, "unit": unit, "count": reps}));
+                }
+                Err(_) => stc.oracle_bugs.push(format!("thread {k} died")),
+            }
+        }
+    }
+    total.merge(stc);
     // dictionary: tokens taken from the code generator's own sources (placeholders, literals)
     let dict = crate::dict::tokens();
     let mut st = Stats::new();
